@@ -375,22 +375,26 @@ func (w *World) interrupt(n *Node, kind string) {
 			}
 		}
 	case "sync":
+		// the newest block some other correct node has committed at or above this node's height (a sync service hands over its tip)
 		h := n.H()
+		var best *Commit
 		for _, src := range w.CorrectLive() {
 			if src == n.Idx {
 				continue
 			}
 			for k := range w.Nodes[src].Commits {
-				if c := &w.Nodes[src].Commits[k]; c.H == h {
-					n.VN.Gc()
-					if n.VN.MainUpdateState(c.Block, c.Proof) {
-						n.pendingSync = c
-						n.pendingDelay = it.Delay
-						n.Interrupted = true
-						w.Obs.Interrupts++
-					}
-					return
+				if c := &w.Nodes[src].Commits[k]; c.H >= h && c.H <= w.Cfg.MaxHeight && (best == nil || c.H > best.H) {
+					best = c
 				}
+			}
+		}
+		if best != nil {
+			n.VN.Gc()
+			if n.VN.MainUpdateState(best.Block, best.Proof) {
+				n.pendingSync = best
+				n.pendingDelay = it.Delay
+				n.Interrupted = true
+				w.Obs.Interrupts++
 			}
 		}
 	}
@@ -574,6 +578,9 @@ func (w *World) onCommit(n *Node, ctx context.Context, block interfaces.Block, p
 		w.Obs.HeightsDone = c.H
 	}
 	w.Mon.onCommit(n, c, ctx)
+	if it := w.Cfg.Interrupt; it != nil && it.Node == n.Idx && n.spiCalls != nil {
+		w.interrupt(n, "commit") // the main loop handles an election / a sync while the worker sits in the commit callback
+	}
 	if c.H == w.Cfg.FailCommitH && isIn(w.Cfg.FailCommit, n.Idx) {
 		return fmt.Errorf("consumer of node %d failed to persist block %d", n.Idx, c.H)
 	}
